@@ -99,6 +99,7 @@ func (fr *frame) chanOp(ins ssa.Instruction) {
 		fr.vals[x] = Val{t: fr.freshRef(), typ: x.Type()}
 	case *ssa.Send:
 		fr.u.note("%s: channel send not modelled", fr.fn.Name())
+		fr.chanBlock("channel send", x.Pos())
 	case *ssa.Select:
 		fr.u.note("%s: select not modelled (outcome unconstrained)", fr.fn.Name())
 		fr.vals[x] = fr.abstractValue(x, "select")
